@@ -45,7 +45,10 @@ fn with_failure(mut p: refasm::Program, pos: usize, which: usize) -> refasm::Pro
     let stmt_positions: Vec<usize> = (0..p.lines.len()).filter(|i| matches!(p.lines[*i].body, Body::Stmt(_))).collect();
     let at = stmt_positions.get(pos).copied().unwrap_or(p.lines.len());
     p.lines.insert(at, Line::stmt(None, Stmt::new(op, &regs, Operand::Label("FARAWAY".into()))));
-    p.lines.push(Line::stmt(None, Stmt::new(Op::Blkw, &[], Operand::Lit(refasm::Lit::Dec(3000)))));
+    // barely / comfortably / far out of reach (the reference decides what is out of reach)
+    let reach = 1i32 << (op.pcrel_bits().unwrap() - 1);
+    let pad = [reach, reach + 1, reach + 33, 2 * reach - 7, 3000][(which / 5) % 5];
+    p.lines.push(Line::stmt(None, Stmt::new(Op::Blkw, &[], Operand::Lit(refasm::Lit::Dec(pad)))));
     p.lines.push(Line::stmt(Some("FARAWAY"), Stmt::simple(Op::Halt)));
     p
 }
@@ -55,7 +58,7 @@ pub fn judge_case(c: &Case) -> Obs {
     let built = proggen::build(&c.spec);
     let nstmts = built.program.lines.iter().filter(|l| matches!(l.body, Body::Stmt(_))).count();
     let program = match c.fail_at {
-        Some(i) => with_failure(built.program.clone(), i.min(nstmts), i),
+        Some(i) => with_failure(built.program.clone(), i.min(nstmts), i + c.spec.orig_val as usize),
         None => built.program.clone(),
     };
     let verdict = refasm::judge(&program, built.stack);
